@@ -85,6 +85,10 @@ def magnitudeTestWith (m : List (List α)) (K : Nat) (sims : List Grid) (obs : G
 /-- which evaluation is called -/
 inductive EvalKind where
   | number | spatial | pseudolikelihood | magnitude
+  /-- `resampled_magnitude_test` / `MLL_magnitude_test` with the resampled histograms this call draws (an input here;
+      `Model/Resample.lean` / `Model/ResampleFull.lean` build them from the uniforms / integers) -/
+  | resampled (draws : List (List Nat))
+  | mll (draws : List (List Nat))
   deriving DecidableEq, Repr
 
 /-- what one evaluation returns -/
@@ -95,7 +99,7 @@ inductive Outcome (α : Type) where
 
 /-- one evaluation on the forecast object: the state after it and what it returns.  The short-circuits that come BEFORE
     the rates are touched (:255-257 PL, :159-173 M on an empty observation) leave the cache as it is. -/
-def evalStep (C K : Nat) (st : FcState α) (kind : EvalKind) (obs : Grid) : FcState α × Outcome α :=
+def evalStep (lg : α → α) (C K : Nat) (st : FcState α) (kind : EvalKind) (obs : Grid) : FcState α × Outcome α :=
   match kind with
   | .number => (st, .number (numberTest st.sims obs))
   | .spatial =>
@@ -113,16 +117,28 @@ def evalStep (C K : Nat) (st : FcState α) (kind : EvalKind) (obs : Grid) : FcSt
     else
       let (st', m) := ensureRates C K st
       (st', .result (magnitudeTestWith m K st'.sims obs))
+  -- the two resampled tests FILL the cache (:413-414, :557-558) but compute the union histogram from the catalogs
+  -- themselves (:417-419, :566-569), never from the cached rates
+  | .resampled draws =>
+    if eventCount obs = 0 then (st, .result emptyObsResult)
+    else
+      let (st', _) := ensureRates C K st
+      (st', .result (resampledMagnitudeTest K st'.sims obs draws))
+  | .mll draws =>
+    if eventCount obs = 0 then (st, .result emptyObsResult)
+    else
+      let (st', _) := ensureRates C K st
+      (st', .result (mllMagnitudeTest lg K st'.sims obs draws))
 
 /-- a session: evaluations in sequence on the same object (each with the observed catalog as it is at that moment) -/
-def runSession (C K : Nat) : FcState α → List (EvalKind × Grid) → List (Outcome α)
+def runSession (lg : α → α) (C K : Nat) : FcState α → List (EvalKind × Grid) → List (Outcome α)
   | _, [] => []
   | st, (k, obs) :: rest =>
-    let (st', o) := evalStep C K st k obs
-    o :: runSession C K st' rest
+    let (st', o) := evalStep lg C K st k obs
+    o :: runSession lg C K st' rest
 
 /-- the same evaluation on a FRESH forecast object holding the same catalogs -/
-def evalFresh (C K : Nat) (sims : List Grid) (kind : EvalKind) (obs : Grid) : Outcome α :=
+def evalFresh (lg : α → α) (C K : Nat) (sims : List Grid) (kind : EvalKind) (obs : Grid) : Outcome α :=
   match kind with
   | .number => .number (numberTest sims obs)
   | .spatial => .result (spatialTest C K sims obs)
@@ -130,5 +146,7 @@ def evalFresh (C K : Nat) (sims : List Grid) (kind : EvalKind) (obs : Grid) : Ou
       | none => .noResult
       | some r => .result r
   | .magnitude => .result (magnitudeTest C K sims obs)
+  | .resampled draws => .result (resampledMagnitudeTest K sims obs draws)
+  | .mll draws => .result (mllMagnitudeTest lg K sims obs draws)
 
 end CatEvals
